@@ -32,6 +32,7 @@ type Writer struct {
 	Scenarios int
 	Events    int
 	Files     []string
+	Quiet     bool // no SUMMARY line on Close
 }
 
 func NewWriter(dir, prefix string, maxEvents int) *Writer {
@@ -82,6 +83,9 @@ func (w *Writer) closeFile() {
 // Close flushes everything and prints a one-line JSON summary on stdout.
 func (w *Writer) Close() {
 	w.closeFile()
+	if w.Quiet {
+		return
+	}
 	sum := map[string]any{"prefix": w.Prefix, "files": w.Files, "scenarios": w.Scenarios, "events": w.Events}
 	b, _ := json.Marshal(sum)
 	fmt.Println("SUMMARY " + string(b))
